@@ -24,8 +24,11 @@ class Contract:
     """declarative contract of a function under contract (also used at its call sites)"""
 
     def __init__(self, qual, params, requires=(), ensures=(), raises=None, modifies=(), returns=None,
-                 exc_ensures=None, pure=False):
+                 exc_ensures=None, pure=False, trusted_ensures=()):
         self.qual = qual
+        # postconditions ASSUMED at call sites but NOT checked in the callee (an induction the tool does not mechanise);
+        # every one is listed in the evidence of the properties that use it
+        self.trusted_ensures = list(trusted_ensures)
         self.params = params  # ordered dict name -> Ty | ('obj', cls)
         self.requires = list(requires)  # [(name, src)]
         self.ensures = list(ensures)  # [(name, src)]   over params, result, old()
@@ -324,6 +327,9 @@ class Registry:
             return []
         if fname in LOG_METHODS:
             return []
+        from .sx import EXC_PARENT
+        if isinstance(callnode.func, ast.Name) and (fname in EXC_PARENT or fname in ("Exception", "BaseException")):
+            return []   # constructing an exception object mutates nothing
         return None
 
     def havoc_ghost_for_loop(self, sx, body, st):
@@ -561,7 +567,7 @@ class Registry:
         ex["result"] = res
         saved = st.ghost.get("__entry__")
         st.ghost["__entry__"] = Conc(entry)
-        for (name, src) in con.ensures:
+        for (name, src) in list(con.ensures) + list(getattr(con, "trusted_ensures", ())):
             st.assume(sx.eval_spec(src, st, ex))
         if saved is None:
             st.ghost.pop("__entry__", None)
